@@ -36,11 +36,19 @@ class Bool:
 
 
 class Int:
-    __slots__ = ('lo', 'hi', 'form')
+    __slots__ = ('lo', 'hi', 'form', '_iid')
 
     def __init__(self, lo=None, hi=None, form=None):
         self.lo, self.hi = lo, hi
         self.form = form      # None or (dict cell -> (kind, coeff)), const): value == const + sum coeff*val(cell)
+        self._iid = None
+
+    @property
+    def iid(self):
+        """Identity of this particular integer value for relational facts."""
+        if self._iid is None:
+            self._iid = fresh_id()
+        return self._iid
 
     def const(self):
         return self.lo if (self.lo is not None and self.lo == self.hi) else None
